@@ -659,3 +659,14 @@ func specF7RoundTrips() bool {
 //@ canary ensures [f7] result
 
 func lemmaFrameAboveCapRoundTrips() bool { return specF7RoundTrips() }
+
+// ---- C06: fan-out of an inbound data message to the session's handlers ----
+// Handlers are function values (operation fn:h); the generation's Done channel is read with arbitrary outcome.
+
+//@ func (*session).recvDataMsg
+//@ nosafety nil-deref nil-iface
+//@ noframe
+//@ requires s != nil
+//@ loop 1 invariant [count]  zzCalls("fn:h") == zzIter()
+//@ loop 1 preserves [once]   zzCalls("fn:h") == 1 && zzArg[*DataMessage]("fn:h", 0) == msg
+//@ ensures [all]  zzCalls("fn:h") == 0 || zzCalls("fn:h") == len(old(s.handlers))
